@@ -21,6 +21,7 @@ func init() {
 		Assumptions: []string{"logging and metrics calls do not panic", "a comparison recognised as a guard is sufficient when the edge leading to the site implies the needed sign/non-zero property of the same variable or struct field (fields are assumed not to be modified between validation in the constructor and use, which R checks by requiring every store into the field to be validated)"},
 		Rules: []RuleDef{
 			{ID: "C14.R1", Min: 60, Doc: "crash-site obligations K1–K11 over all runtime functions: enumerate, then discharge by guard / validated value flow / reviewed table", Run: c14r1},
+			{ID: "C14.R3", Min: 5, Doc: "one concrete type per published atomic.Value: a consistentHashing route always publishes a consistentHashingConfig — every exported baseRoute method that rebuilds the config through an extender is redeclared on *ConsistentHashing with its own extender; storing a baseConfig into the same atomic.Value panics ('store of inconsistently typed value') in the admin goroutine (rule C15.R3 evaluated for this property as well)", Run: c15r3},
 			{ID: "C14.R2", Min: 2, Doc: "structural preconditions of the reviewed entries (constructor guards, list/map agreement in AddOrCreate, ring non-emptiness) still hold", Run: c14r2},
 		},
 	})
@@ -81,6 +82,7 @@ func init() {
 	rv("K9 destination.addrInstanceSplit index [2] of strings.Split()", "inside `if strings.Count(addr, \":\") == 2`: the split has three elements", "")
 	rv("K9 go-whisper.parseRetentionPart index [1] of (*regexp.Regexp).FindStringSubmatch()", "after retentionRegexp.MatchString succeeded: the expression has two groups", "")
 	rv("K9 go-whisper.parseRetentionPart index [2] of (*regexp.Regexp).FindStringSubmatch()", "see above", "")
+	rv("K9 persister.parseIniFile slice [1:len-1] of strings.TrimSpace()", "the line starts with '[' and ends with ']': two different bytes, so it has at least two characters", "ini section line has both brackets")
 	rv("K9 route.parseMetric index [0] of persister.Schema.Retentions", "getSchemas rejects schemas with an empty retention list", "getSchemas non-empty retentions")
 	// K11
 	rv("K11 (*aggregator.Aggregator).Flush deref of map lookup a.aggregations", "every timestamp in tsList has a bucket in the map: AddOrCreate creates both together and Flush removes both", "AddOrCreate keeps list and map in step")
@@ -124,6 +126,9 @@ func nilGuarded(fn *ssa.Function, at ssa.Instruction, v ssa.Value) bool {
 
 // lenGuarded: some comparison involving len(x) (x at the same location as v) decides whether `at` is reached.
 var depthLG int
+
+// minLenLG: the length the guarded access needs (0: unknown, any length test is accepted).
+var minLenLG int64
 
 // helperTrueImpliesLenTest: every way the boolean helper g can return true is controlled by a
 // test of len(par) inside g.
@@ -206,7 +211,39 @@ func lenGuarded(fn *ssa.Function, at ssa.Instruction, v ssa.Value) bool {
 			continue
 		}
 		for si := 0; si < 2; si++ {
-			if edgeDominates(b, b.Succs[si], at.Block()) {
+			if !edgeDominates(b, b.Succs[si], at.Block()) {
+				continue
+			}
+			// a comparison with a constant must exclude every length that is too short on this edge
+			var k int64
+			var lenLeft, isConst bool
+			if kk, ok := constInt(bo.Y); ok && isLen(bo.X) {
+				k, lenLeft, isConst = kk, true, true
+			} else if kk, ok := constInt(bo.X); ok && isLen(bo.Y) {
+				k, lenLeft, isConst = kk, false, true
+			}
+			if !isConst || minLenLG <= 0 {
+				return true
+			}
+			excludes := true
+			for L := int64(0); L < minLenLG; L++ {
+				var t, known bool
+				if lenLeft {
+					t, known = evalRel(bo.Op, L, k)
+				} else {
+					t, known = evalRel(bo.Op, k, L)
+				}
+				if !known {
+					excludes = false
+					break
+				}
+				taken := t != negated
+				if (si == 0) == taken {
+					excludes = false // a too-short slice can take this edge
+					break
+				}
+			}
+			if excludes {
 				return true
 			}
 		}
@@ -240,13 +277,30 @@ func c14r1(c *Check) {
 		case "K7":
 			if nilGuarded(s.Fn, s.In, s.Val) {
 				done = "dominated by a nil test of the same field"
-			} else if regexFieldAlwaysSet(c.P, d, s.Val) {
-				done = "every store into the field assigns a successfully compiled expression"
+			} else if why := matcherRegexGated(c.P, s); why == "" {
+				done = "MatchRegexAndExpand is only called on an aggregator's matcher; aggregator.New rejects an empty Regex and matcher.updateInternals compiles every non-empty Regex (no other condition), so regex is set"
 			}
 		case "K8":
 			done = dischargeClose(c, s)
 		case "K9":
-			if lenGuarded(s.Fn, s.In, s.Val) {
+			minLenLG = 0
+			switch x := s.In.(type) {
+			case *ssa.IndexAddr:
+				if k, ok := constInt(x.Index); ok {
+					minLenLG = k + 1
+				}
+			case *ssa.Slice:
+				if lo, ok := constInt(x.Low); ok {
+					if bo, ok := x.High.(*ssa.BinOp); ok {
+						if d, ok := constInt(bo.Y); ok {
+							minLenLG = lo + d
+						}
+					}
+				}
+			}
+			guarded := lenGuarded(s.Fn, s.In, s.Val)
+			minLenLG = 0
+			if guarded {
 				done = "controlled by a test of the slice's length"
 			} else if why := knownLength(s); why != "" {
 				done = why
@@ -622,7 +676,30 @@ func knownLength(s crashSite) string {
 	if ex, ok := v.(*ssa.Extract); ok && ex.Index == 0 {
 		if call, ok := ex.Tuple.(*ssa.Call); ok && calleeName(call.Common()) == "(*bufio.Reader).Peek" {
 			if n, ok := constInt(call.Call.Args[1]); ok && idx >= 0 && idx < n {
-				return "Peek(n) returns exactly n bytes when it returns no error (the error is tested right after)"
+				// only on the no-error edge of the test of Peek's error
+				for _, r := range *call.Referrers() {
+					errEx, ok := r.(*ssa.Extract)
+					if !ok || errEx.Index != 1 {
+						continue
+					}
+					for _, b := range s.Fn.Blocks {
+						ifi, ok := b.Instrs[len(b.Instrs)-1].(*ssa.If)
+						if !ok {
+							continue
+						}
+						e, errEdge, ok := errTest(ifi.Cond)
+						if !ok || e != ssa.Value(errEx) {
+							continue
+						}
+						si := 1
+						if !errEdge {
+							si = 0
+						}
+						if edgeDominates(b, b.Succs[si], s.In.Block()) {
+							return "Peek(n) returns exactly n bytes when it returns no error, and the access is on the no-error edge"
+						}
+					}
+				}
 			}
 		}
 	}
@@ -668,6 +745,63 @@ func c14r2(c *Check) {
 		})
 		c.Judge(okG, "destination.New validates "+par.name+" "+par.nd.String(), c.AtFn(dn), "rejecting comparison dominates the construction", "destination.New no longer rejects a "+par.name+" that makes the destination's goroutines panic later (time.NewTicker / NewWriter / make(chan))")
 	}
+	// parseIniFile: the section-name slice is taken only from lines that start with '[' and end with ']'
+	pif := c.P.Func("persister", "", "parseIniFile")
+	okOpen, okClose := false, false
+	var sect *ssa.Slice
+	allInstrs(pif, func(in ssa.Instruction) {
+		if sl, ok := in.(*ssa.Slice); ok && sl.Low != nil && sl.High != nil {
+			if lo, ok := constInt(sl.Low); ok && lo == 1 {
+				if bo, ok := sl.High.(*ssa.BinOp); ok && bo.Op == token.SUB && isLenOf(bo.X, sl.X) {
+					sect = sl
+				}
+			}
+		}
+	})
+	if sect != nil {
+		for _, b := range pif.Blocks {
+			ifi, ok := b.Instrs[len(b.Instrs)-1].(*ssa.If)
+			if !ok {
+				continue
+			}
+			cnd, neg := negStrip(ifi.Cond)
+			bo, ok := cnd.(*ssa.BinOp)
+			if !ok || (bo.Op != token.EQL && bo.Op != token.NEQ) {
+				continue
+			}
+			var lkX, lkIndex ssa.Value
+			switch lk := bo.X.(type) {
+			case *ssa.Index:
+				lkX, lkIndex = lk.X, lk.Index
+			case *ssa.Lookup:
+				lkX, lkIndex = lk.X, lk.Index
+			}
+			if lkX != sect.X {
+				continue
+			}
+			ch, ok := constInt(bo.Y)
+			if !ok {
+				continue
+			}
+			// the edge on which the byte equals ch
+			si := 0
+			if (bo.Op == token.NEQ) != neg {
+				si = 1
+			}
+			if !edgeDominates(b, b.Succs[si], sect.Block()) {
+				continue
+			}
+			if k, isK := constInt(lkIndex); isK && k == 0 && ch == '[' {
+				okOpen = true
+			}
+			if ib, isB := lkIndex.(*ssa.BinOp); isB && ib.Op == token.SUB && isLenOf(ib.X, sect.X) && ch == ']' {
+				if k, _ := constInt(ib.Y); k == 1 {
+					okClose = true
+				}
+			}
+		}
+	}
+	c.Judge(sect != nil && okOpen && okClose, "persister.parseIniFile section names come from lines with both brackets", c.AtFn(pif), "line[1:len-1] is taken only after line[0] == '[' and line[len-1] == ']' (two different bytes: length >= 2)", "the section-name slice line[1:len(line)-1] is no longer protected by the tests for '[' first and ']' last: a one-character line panics when a schema file is (re)loaded by an admin command")
 	// getSchemas requires a default pattern
 	gs := c.P.Func("route", "", "getSchemas")
 	hasDefault := false
@@ -998,4 +1132,188 @@ func rejectingComparison(fn *ssa.Function, par *ssa.Parameter, nd need) bool {
 		}
 	}
 	return false
+}
+
+// matcherRegexGated discharges the unguarded uses of Matcher.regex in MatchRegexAndExpand. It returns
+// "" when (a) the method is only called on the Matcher field of an Aggregator, (b) aggregator.New
+// rejects a matcher whose Regex option is empty before constructing anything, (c) in
+// (*Matcher).updateInternals the store into regex is controlled by nothing but the non-empty test of
+// the Regex option and the success of regexp.Compile(Regex), and (d) no code outside package matcher
+// builds a Matcher by hand. Otherwise it returns what is missing.
+func matcherRegexGated(p *Prog, s crashSite) string {
+	if FuncName(s.Fn) != "(*matcher.Matcher).MatchRegexAndExpand" {
+		return "not MatchRegexAndExpand"
+	}
+	_, f, ok := fieldLoad(s.Val)
+	if !ok || f.Name() != "regex" {
+		return "not the regex field"
+	}
+	mre := s.Fn
+	// (a)
+	for _, e := range p.CG().In[mre] {
+		cc := callCommon(e.Site)
+		if cc == nil || e.Kind == EdgeRef {
+			return "MatchRegexAndExpand escapes as a function value"
+		}
+		pk := fnPkg(e.Caller)
+		if pk == nil || pk.Path() != modPath+"/aggregator" {
+			return "MatchRegexAndExpand is called from " + FuncName(e.Caller) + ", outside the aggregator"
+		}
+		if len(cc.Args) == 0 {
+			return "unexpected call shape"
+		}
+		if _, names := fieldPath(cc.Args[0]); len(names) == 0 || names[len(names)-1] != "Matcher" {
+			return "MatchRegexAndExpand is called on something other than Aggregator.Matcher in " + FuncName(e.Caller)
+		}
+	}
+	if len(p.CG().In[mre]) == 0 {
+		return "no caller"
+	}
+	// (b)
+	an := p.Func("aggregator", "", "New")
+	okB := false
+	for _, b := range an.Blocks {
+		ifi, ok := b.Instrs[len(b.Instrs)-1].(*ssa.If)
+		if !ok {
+			continue
+		}
+		cnd, neg := negStrip(ifi.Cond)
+		bo, ok := cnd.(*ssa.BinOp)
+		if !ok || (bo.Op != token.EQL && bo.Op != token.NEQ) {
+			continue
+		}
+		str, ok := constString(bo.Y)
+		if !ok || str != "" {
+			continue
+		}
+		if _, names := fieldPath(bo.X); len(names) == 0 || names[len(names)-1] != "Regex" {
+			continue
+		}
+		si := 0 // edge on which Regex == ""
+		if (bo.Op == token.NEQ) != neg {
+			si = 1
+		}
+		tgt := b.Succs[si]
+		if ret, ok := tgt.Instrs[len(tgt.Instrs)-1].(*ssa.Return); ok && len(ret.Results) == 2 {
+			if k, isC := ret.Results[1].(*ssa.Const); !isC || !k.IsNil() {
+				// nothing is constructed before the test
+				okB = b.Dominates(b) && blockIsBeforeConstruction(an, b)
+			}
+		}
+	}
+	if !okB {
+		return "aggregator.New does not reject an empty Regex before constructing the aggregator"
+	}
+	// (c)
+	ui := p.Func("matcher", "*Matcher", "updateInternals")
+	var store *ssa.Store
+	allInstrs(ui, func(in ssa.Instruction) {
+		if st, ok := in.(*ssa.Store); ok {
+			if fa, ok := st.Addr.(*ssa.FieldAddr); ok && fieldOfAddr(fa) == f {
+				store = st
+			}
+		}
+	})
+	if store == nil {
+		return "updateInternals does not set regex"
+	}
+	ex, ok := store.Val.(*ssa.Extract)
+	if !ok {
+		return "regex is not assigned the result of regexp.Compile"
+	}
+	comp, ok := ex.Tuple.(*ssa.Call)
+	if !ok || calleeName(comp.Common()) != "regexp.Compile" {
+		return "regex is not assigned the result of regexp.Compile"
+	}
+	if _, names := fieldPath(comp.Call.Args[0]); len(names) == 0 || names[len(names)-1] != "Regex" {
+		return "the compiled expression is not the Regex option"
+	}
+	for _, b := range ui.Blocks {
+		ifi, ok := b.Instrs[len(b.Instrs)-1].(*ssa.If)
+		if !ok {
+			continue
+		}
+		for si := 0; si < 2; si++ {
+			if !edgeDominates(b, b.Succs[si], store.Block()) || edgeDominates(b, b.Succs[1-si], store.Block()) {
+				continue
+			}
+			// this condition controls the store: it must be the non-empty test or the compile error test
+			if e, errEdge, ok := errTest(ifi.Cond); ok {
+				if ex2, ok := e.(*ssa.Extract); ok && ex2.Tuple == ssa.Value(comp) && (si == 1) == errEdge {
+					continue
+				}
+			}
+			cnd, neg := negStrip(ifi.Cond)
+			if bo, ok := cnd.(*ssa.BinOp); ok {
+				isRegexOpt := func(v ssa.Value) bool {
+					_, names := fieldPath(v)
+					return len(names) > 0 && names[len(names)-1] == "Regex"
+				}
+				if call, ok := bo.X.(*ssa.Call); ok {
+					if bi, ok := call.Call.Value.(*ssa.Builtin); ok && bi.Name() == "len" && isRegexOpt(call.Call.Args[0]) {
+						if k, ok := constInt(bo.Y); ok {
+							t0, _ := evalRel(bo.Op, 0, k)
+							t1, _ := evalRel(bo.Op, 1, k)
+							taken := si == 0
+							// the edge is taken for every non-empty option and not for the empty one
+							if t0 != t1 && (t1 != neg) == taken {
+								continue
+							}
+						}
+					}
+				}
+				if str, ok := constString(bo.Y); ok && str == "" && isRegexOpt(bo.X) && (bo.Op == token.NEQ || bo.Op == token.EQL) {
+					nonEmptyEdge := 0
+					if (bo.Op == token.EQL) != neg {
+						nonEmptyEdge = 1
+					}
+					if si == nonEmptyEdge {
+						continue
+					}
+				}
+			}
+			return "in updateInternals the compilation of the Regex option depends on a further condition (" + p.InstrPos(ifi) + "): some non-empty Regex leaves regex nil, and MatchRegexAndExpand dereferences it"
+		}
+	}
+	// (d)
+	for _, fn := range p.Funcs {
+		pk := fnPkg(fn)
+		if pk != nil && pk.Path() == modPath+"/matcher" {
+			continue
+		}
+		bad := ""
+		allInstrs(fn, func(in ssa.Instruction) {
+			fa, ok := in.(*ssa.FieldAddr)
+			if !ok {
+				return
+			}
+			ff := fieldOfAddr(fa)
+			if ff.Pkg() == nil || ff.Pkg().Path() != modPath+"/matcher" {
+				return
+			}
+			for _, r := range *fa.Referrers() {
+				if st, ok := r.(*ssa.Store); ok && st.Addr == ssa.Value(fa) {
+					bad = FuncName(fn) + " writes Matcher." + ff.Name() + " directly"
+				}
+			}
+		})
+		if bad != "" {
+			return bad
+		}
+	}
+	return ""
+}
+
+// blockIsBeforeConstruction: no allocation of an Aggregator and no goroutine start can precede block b in fn.
+func blockIsBeforeConstruction(fn *ssa.Function, b *ssa.BasicBlock) bool {
+	ok := true
+	allInstrs(fn, func(in ssa.Instruction) {
+		switch in.(type) {
+		case *ssa.Go:
+			if in.Block() != b && in.Block().Dominates(b) {
+				ok = false
+			}
+		}
+	})
+	return ok
 }
